@@ -144,14 +144,14 @@ def stage_name(s):
     return n
 
 
-def build(ctx):
+def build(ctx, race=False, family_race=True):
     d = vlib.scratch_dir("pool-" + ctx.pid)
     for n in os.listdir(os.path.join(vlib.ROOT, "harness/pool")):
         if n.endswith(".go"):
             shutil.copy(os.path.join(vlib.ROOT, "harness/pool", n), d)
     vlib.write_gomod(d, "harness/pool", requires=["pipe", "pure"])
     exe = os.path.join(d, "pool.test")
-    rc, out = vlib.go_build(d, ".", exe, test=True)
+    rc, out = vlib.go_build(d, ".", exe, test=True, race=(race and family_race))
     if rc != 0:
         shutil.rmtree(d, ignore_errors=True)
         raise vlib.HarnessError("harness/pool does not build against /repo/pipe:\n" + out[-2000:])
@@ -229,7 +229,18 @@ def run_family(ctx, family, tier=None, seed=None, replay_cases=None):
                 os.remove(out)
             env2 = dict(env)
             env2["VERIF_FREE"] = str(rounds)
-            rc, log = vlib.sh([exe, "-test.run", "TestFree", "-test.timeout", "1200s"], cwd=d, env=env2, timeout=1500)
+            free_exe = exe
+            if (tier or ctx.tier) == "thorough":
+                # the free-running stress runs under the race detector in the thorough tier
+                free_exe = os.path.join(d, "pool_race.test")
+                rc_b, out_b = vlib.go_build(d, ".", free_exe, test=True, race=True)
+                if rc_b != 0:
+                    free_exe = exe
+                    ctx.notes["race_build"] = "failed: " + out_b[-300:]
+                else:
+                    ctx.notes["race_build"] = "free-running stress ran under -race"
+                    env2["GORACE"] = "halt_on_error=1"
+            rc, log = vlib.sh([free_exe, "-test.run", "TestFree", "-test.timeout", "1200s"], cwd=d, env=env2, timeout=1500)
             free = []
             stats = {}
             if os.path.exists(out):
